@@ -187,7 +187,7 @@ impl<'a> SpecGen<'a> {
                 (json!({"type": "array", "items": items}), "array")
             }
             13 | 14 => { self.feat("primitive_component"); (self.primitive(), "prim") }
-            15 => match self.solid_ref() {
+            15 => match { let earlier: Vec<String> = self.names.iter().zip(self.kinds.iter()).filter(|(_, k)| **k == "alias").map(|(n, _)| n.clone()).collect(); if !earlier.is_empty() && self.rng.chance(1, 2) { let n: String = self.rng.pick(&earlier[..]).clone(); self.feat("alias_of_alias"); Some(r(&n)) } else { self.solid_ref() } } {
                 Some(t) => { self.feat("alias_component"); let mut a = json!({"allOf": [t]}); if self.rng.chance(1, 2) { a["nullable"] = json!(true); self.feat("nullable_alias"); } (a, "alias") }
                 None => (self.object(0, false), "object"),
             },
